@@ -524,6 +524,45 @@ def check_C11(ctx):
                 ctx.violation("swap", "spec %r: %r and %r differ: %r %r vs %r %r" %
                               (cases[s]["root"]["spec"], cases[s]["argv"], cases[j]["argv"], a0["outcome"], a0["values"], a1["outcome"], a1["values"]),
                               case=cases[s], variant=cases[j])
+    # small scope: folded tokens with repeated letters, loops followed by an option that can only match after them;
+    # two adjacent units naming disjoint sets of options are swapped (a composition of adjacent swaps of different options)
+    sdecls = [gen.mkopt("custom", "a", custom=dict(gen.CUSTOM_FLAG)), gen.mkopt("custom", "b", custom=dict(gen.CUSTOM_FLAG)),
+              gen.mkopt("custom", "c", custom=dict(gen.CUSTOM_FLAG)), gen.mkopt("strings", "o")]
+    units = [(["-a"], "a"), (["-b"], "b"), (["-c"], "c"), (["-aa"], "a"), (["-aaa"], "a"), (["-ac"], "ac"), (["-ca"], "ac"),
+             (["-acac"], "ac"), (["-cc"], "c"), (["-o", "v"], "o"), (["-ov"], "o"), (["-bb"], "b")]
+    sspecs = ["-a... -b", "(-a|-c)... -b", "[-a...] [-b] [-c...]", "-b -a...", "(-a | -b | -c)...", "[-a | -c]... -b [-o]", "[OPTIONS]",
+              "-a... -o", "(-a -c)... -b", "-b... -a...", "[-o] -a... -b"]
+    small, sgroups = [], []
+    lines_ = [ls for n in (2, 3) for ls in itertools.product(units, repeat=n)]
+    lines_ = [ls for ls in lines_ if any(not set(ls[i][1]) & set(ls[i + 1][1]) for i in range(len(ls) - 1))]
+    combos = [(sp, ls) for sp in sspecs for ls in lines_]
+    if len(combos) > ctx.scale(2500, 25000):
+        combos = rng.sample(combos, ctx.scale(2500, 25000))
+    for sp, ls in combos:
+        start = len(small)
+        vs = [list(ls)]
+        for i in range(len(ls) - 1):
+            if not set(ls[i][1]) & set(ls[i + 1][1]):
+                sw = list(ls)
+                sw[i], sw[i + 1] = sw[i + 1], sw[i]
+                vs.append(sw)
+        for v in vs:
+            small.append({"op": "run", "env": {}, "version": None, "root": gen.mkcmd("app", decls=copy.deepcopy(sdecls), spec=sp, policy=0),
+                          "argv": [t for u in v for t in u[0]]})
+        sgroups.append((start, len(small)))
+    number(small, start=len(cases))
+    res_s = correspond(ctx, small, ["outcome", "trace", "values"], "small scope: folded tokens and loops")
+    spairs = 0
+    for s_, e_ in sgroups:
+        a0, _ = res_s[small[s_]["id"]]
+        for j in range(s_ + 1, e_):
+            a1, _ = res_s[small[j]["id"]]
+            spairs += 1
+            if diff_obs(a0, a1, ["outcome", "trace", "values"]):
+                ctx.violation("swap", "spec %r: %r and %r differ: %r %r vs %r %r" %
+                              (small[s_]["root"]["spec"], small[s_]["argv"], small[j]["argv"], a0["outcome"], a0["values"], a1["outcome"], a1["values"]),
+                              case=small[s_], variant=small[j])
+    ctx.stream("small scope: folded tokens and loops", 0, lines=len(sgroups), pairs=spairs)
     cov = theorem_coverage(ctx, cases, groups, rel_swap)
     ctx.stream("adjacent swaps", 0, lines=len(groups), pairs=pairs, theorem_C11_swapped_readings_same_parse=cov)
     ctx.sample({"spec": cases[0]["root"]["spec"], "base": cases[0]["argv"], "swapped": cases[1]["argv"] if len(cases) > 1 else None})
@@ -862,6 +901,32 @@ def check_C19(ctx):
                         root = gen.mkcmd("app", decls=[d], spec=spec, policy=0)
                         cases.append({"op": "run", "env": env, "version": None, "root": root, "argv": argv,
                                       "_cu": cu, "_env": list(env_vals), "_bound": bound})
+    # in company: the custom type next to a flag and an argument, in specs where OTHER matchers have to step over its
+    # occurrences; only a type whose IsBoolFlag() answers true is stepped over as one token
+    company = []
+    for isbool, boolfalse in ((False, False), (True, False), (True, True)):
+        cu = {"isbool": isbool, "clear": True, "isdef": False, "isdefval": False}
+        if boolfalse:
+            cu["isboolfalse"] = True
+        flag = isbool and not boolfalse
+        decls = [gen.mkopt("custom", "a all", custom=dict(gen.CUSTOM_FLAG)), gen.mkopt("custom", "l level", custom=dict(cu)),
+                 gen.mkarg("strings", "ARG")]
+        occ_l = [["-l"], ["--level"], ["-l=true"]] if flag else [["-l", "3"], ["-l3"], ["-l=3"], ["--level", "3"], ["--level=3"], ["-l", "a"]]
+        pieces = occ_l + [["-a"], ["--all"], ["v"], ["-la"], ["-al"], ["-la", "v"], ["-al", "v"], ["-al3"], ["-aal"], ["-l", "-a"]]
+        for sp in ("-a -l", "[-a] -l [ARG]", "[-a] [-l] [ARG...]", "(-a | -l)... [ARG]", "-l [-a] ARG", "[-l] -a...", "[-al] [ARG...]",
+                   "-l... -a", "[OPTIONS] [ARG...]"):
+            for n in (1, 2, 3):
+                for ps in itertools.product(pieces, repeat=n):
+                    company.append((cu, decls, sp, [t for p_ in ps for t in p_]))
+    if len(company) > ctx.scale(6000, 60000):
+        company = rng.sample(company, ctx.scale(6000, 60000))
+    comp_cases = [{"op": "run", "env": {}, "version": None, "root": gen.mkcmd("app", decls=copy.deepcopy(d_), spec=sp, policy=0), "argv": av}
+                  for cu, d_, sp, av in company]
+    number(comp_cases, start=len(cases))
+    res_c = correspond(ctx, comp_cases, ["outcome", "trace", "values", "logs"], "custom type in company")
+    from props import judge_sentences
+    st_c = judge_sentences(ctx, comp_cases, res_c, "C19")
+    ctx.stream("custom type in company", 0, **st_c)
     res = correspond(ctx, cases, ["outcome", "trace", "values", "logs", "sbu"], "custom types x env x command lines")
     stats = {"accepted": 0, "set_error": 0}
     for c in cases:
@@ -909,6 +974,20 @@ def check_C20(ctx):
         root, path, per_level, cmds = props2.tree_invocation(ctx, rng.randint(1, 3), 3, reject_prob=0.3, simple_hooks=False)
         root["policy"] = rng.choice([0, 1, 2])
         base.append({"op": "run", "env": {}, "version": None, "root": root, "argv": props2.flat_argv(path, per_level)})
+    # applications whose multi-valued defaults are the same slice objects process-wide (a program keeping its defaults in
+    # package-level variables): one application is given values, another none, in every order and concurrently
+    shared_defaults = []
+    for kind, dflt, vals in (("strings", ["d1", "d2", "d3"], ["p", "q", "r", "s"]), ("ints", ["4", "5", "6"], ["1", "2", "3", "7"]),
+                             ("floats", ["1.5", "2.5", "3.5"], ["9", "8", "7", "6"])):
+        for isopt in (True, False):
+            key = "G:%s%d" % (kind, isopt)
+            # (no environment here: under op "conc" the process environment is common to the concurrent applications)
+            for n in (0, 1, 2, 4, 0, 3, 0, 1):
+                d = (gen.mkopt if isopt else gen.mkarg)(kind, "f ff" if isopt else "ARG", defshare=key, sbu=True, **{"def": list(dflt)})
+                argv = [t for v in vals[:n] for t in ("-f", v)] if isopt else vals[:n]
+                root = gen.mkcmd("app", decls=[d], spec="[-f...]" if isopt else "[ARG...]", policy=0)
+                shared_defaults.append({"op": "run", "env": {}, "version": None, "root": root, "argv": argv})
+    base = shared_defaults + base
     number(base)
     # (1) sequential, three different orders, one process per shard: outcomes must not depend on history
     runs = []
